@@ -317,7 +317,7 @@ func (p *cparser) typ() *CExpr {
 	return &CExpr{Op: "type", Name: name}
 }
 
-var typeArgBuiltins = map[string]int{"typeis": 1, "as": 1}
+var typeArgBuiltins = map[string]int{"typeis": 1, "as": 1, "zero": 0}
 
 func (p *cparser) postfix() *CExpr {
 	e := p.primary()
